@@ -64,6 +64,17 @@ def gen(rng, tier):
         elif r < 0.9:
             ws = [rng.uniform(0.01, 10) for _ in range(rng.randint(1, 7))]
             yield dict(kind="scale_float", ws=ws, T=rng.randint(0, 500))
+        elif r < 0.93:
+            # many outcomes, few shots: rounding overshoots and the elimination loop has to resample
+            w = rng.randint(3, 5)
+            keys = list(range(2 ** w))
+            rng.shuffle(keys)
+            keys = keys[:rng.randint(2 ** w // 2, 2 ** w)]
+            S = 2 ** 12
+            base = S // len(keys)
+            ps = [base + rng.randint(-base // 8, base // 8) for _ in keys]
+            ps[-1] += S - sum(ps)
+            yield dict(kind="represent", width=w, keys=keys, ps=ps, S=S, N=rng.randint(max(1, len(keys) // 2), len(keys) + 2), npseed=rng.randint(0, 2 ** 31))
         elif r < 0.96:
             w = rng.randint(1, 3)
             keys = rng.sample(range(2 ** w), rng.randint(1, 2 ** w))
@@ -188,7 +199,7 @@ def run_case(inp):
         support = {k for k, p in d.items() if p > 0}
         ok = len(bs) == inp["N"] and all(tuple(b) in support for b in bs)
         return dict(chk=None, oracle_ok=ok, oracle_msg="" if ok else f"{len(bs)} shots for N={inp['N']}, off-support: {[b for b in bs if tuple(b) not in support][:3]}",
-                    kind=kind, nontrivial=len(d) >= 2)
+                    kind=kind + ("-sparse" if inp["N"] <= len(d) + 2 and len(d) >= 4 else ""), nontrivial=len(d) >= 2)
     if kind == "pipeline":
         ns, m = inp["ns"], inp["m"]
         cs = list(range(len(ns)))
